@@ -182,7 +182,7 @@ def configs_extra(tier, rng):
     for i in (-1, 0, 1, 2):
       for kn, sym in itertools.product((0, 1), (0, 1)):
         for al in PC_ALPHAS:
-          for layout in ("row", "vec", "col", "list", "tf"):
+          for layout in ("row", "vec", "col", "list", "tf", "r4"):
             pc.append(("qlinear_pc", dict(bits=b, integer=i, symmetric=sym, keep_negative=kn,
                                           alphas=list(al), layout=layout)))
   # the cells where range() broadcasts [.., C] against n codes with C == n (bits=2: n = 3 or 4)
@@ -288,6 +288,11 @@ def configs_extra(tier, rng):
     cells.setdefault(c[0], []).append(c)
   for key in sorted(cells):
     out += _pick(rng, cells[key], 6 if quick else 40)
+  # quantized_linear: `alpha` assigned after construction (declared "modifyable"; the scale is stored once)
+  for ca, a in ((None, 2.0), (2.0, None), (0.5, 2.0), (1.0, None), (None, 0.25)):
+    out.append(("qlinear", dict(bits=int(rng.integers(2, 7)), integer=int(rng.integers(-1, 3)),
+                                symmetric=int(rng.integers(0, 2)), keep_negative=1, alpha=a, ctor_alpha=ca,
+                                has_ctor_alpha=1, route="reassign-alpha")))
   return out
 
 
@@ -308,6 +313,8 @@ def _alpha_arg(cfg):
     return tuple(al)
   if layout == "tf":
     return tf.constant([al], dtype=tf.float32)
+  if layout == "r4":
+    return np.array(al, dtype=np.float32).reshape(1, 1, 1, -1)     # a conv kernel's per-channel scale
   raise ValueError(layout)
 
 
@@ -386,6 +393,11 @@ def build(kind, cfg):
       Q.set_internal_sigmoid(cm)
     if cfg.get("route") == "reassign":
       return _build_reassign(kind, cfg)
+    if cfg.get("route") == "reassign-alpha":
+      q = Q.quantized_linear(cfg["bits"], cfg["integer"], cfg["symmetric"], keep_negative=cfg["keep_negative"],
+                             alpha=cfg["ctor_alpha"])
+      q.alpha = cfg["alpha"]
+      return q
     return _build_direct(kind, cfg)
   finally:
     if cm is not None:
@@ -517,7 +529,7 @@ def _label(kind, cfg):
 def _wire_cfg(cfg):
   out = {}
   for k, v in cfg.items():
-    if k in ("alpha", "upper"):
+    if k in ("alpha", "upper", "ctor_alpha"):
       out[k] = None if v is None else core.rj(v)
     elif k in ("alphas", "layout", "bound", "route", "ctor_mode", "mode", "real"):
       continue
@@ -562,6 +574,10 @@ def _collect_scalar(run, rng, kind, cfg, family, jobs, recs):
     # 1-bit sign formats: outputs +-gain (quantized_bits) resp. +-qs/2 (quantized_linear)
     g = F(1) if cfg.get("alpha") is None else F(cfg["alpha"])
     step, lo, hi = (g if kind == "qbits" else g * F(2) ** cfg["integer"] / 2), -1, 1
+  elif cfg.get("route") == "reassign-alpha":
+    # the inputs aim at the format the object BEHAVES as (the stored scale); the oracle judges them
+    # against the declared one
+    step, lo, hi, _ = lattice(kind, dict(cfg, alpha=cfg["ctor_alpha"]))
   else:
     step, lo, hi, _ = lat
   mode = cfg.get("mode", "hard")
@@ -664,11 +680,17 @@ def _collect_pc(run, rng, kind, cfg, jobs, recs):
   units = distinct(units)
   x = np.stack([(units * np.float32(s)).astype(np.float32) for s in steps], axis=1)   # [N, C], exact (po2)
   col = cfg["layout"] == "col"
+  r4 = cfg["layout"] == "r4"
   call = caller(q, cfg)
 
+  def to_impl(m):
+    return m.T if col else (m.reshape(-1, 1, 1, C) if r4 else m)
+
+  def from_impl(y):
+    return y.T if col else (y.reshape(-1, C) if r4 else y)
+
   def call_mat(m):
-    y = call(m.T if col else m)
-    return y.T if col else y
+    return from_impl(call(to_impl(m)))
   try:
     y = call_mat(x)
     assert y.shape == x.shape
@@ -679,9 +701,8 @@ def _collect_pc(run, rng, kind, cfg, jobs, recs):
   # reporters, broadcast against the output exactly as `q.min() <= y` would
   mins = maxs = None
   try:
-    mn = np.broadcast_to(np.asarray(q.min(), dtype=np.float64), (y.T if col else y).shape)
-    mx = np.broadcast_to(np.asarray(q.max(), dtype=np.float64), (y.T if col else y).shape)
-    mn, mx = (mn.T, mx.T) if col else (mn, mx)
+    mn = from_impl(np.broadcast_to(np.asarray(q.min(), dtype=np.float64), to_impl(y).shape))
+    mx = from_impl(np.broadcast_to(np.asarray(q.max(), dtype=np.float64), to_impl(y).shape))
     mins, maxs = [fr(mn[:, j]) for j in range(C)], [fr(mx[:, j]) for j in range(C)]
   except Exception:  # pylint: disable=broad-except
     run.count("pc_reporter_error")
@@ -772,7 +793,7 @@ def collect(run: core.Run, tier: str, prop: str):
     if kind.endswith("_pc"):
       _collect_pc(run, rng2, kind, cfg, jobs, recs)
     else:
-      family = ("reassign" if cfg.get("route") == "reassign" else
+      family = ("reassign" if cfg.get("route") in ("reassign", "reassign-alpha") else
                 "modes" if "mode" in cfg else "relu-opts")
       _collect_scalar(run, rng2, kind, cfg, family, jobs, recs)
   Q.set_internal_sigmoid("hard")
